@@ -237,6 +237,9 @@ type Outcome struct {
 	Delivered int             `json:"delivered"`
 	Consumed  []int           `json:"consumed"`
 	Stalled   bool            `json:"stalled,omitempty"`
+	// Dialed: the client opened a stream.  A client that refuses a request locally (an error
+	// without any exchange) never meets the host, whatever the fault plan says.
+	Dialed bool `json:"dialed"`
 	// Noop: faults that did not change the bytes on the wire, or sit on a message the renter
 	// never read a byte of (it had returned already)
 	Noop      []string        `json:"noop,omitempty"`
@@ -263,6 +266,7 @@ func (s *session) run() Outcome {
 	defer e.net.SetProxy(nil)
 	t0 := time.Now()
 	var out Outcome
+	streams := e.net.Streams()
 	func() {
 		defer func() {
 			if r := recover(); r != nil {
@@ -285,6 +289,7 @@ func (s *session) run() Outcome {
 		out.Bound, out.Detail = s.bound(res)
 	}()
 	out.Millis = float64(time.Since(t0).Microseconds()) / 1000
+	out.Dialed = e.net.Streams() > streams
 	e.waitServer()
 	s.sc.mu.Lock()
 	out.Delivered = s.sc.delivered
